@@ -1,5 +1,7 @@
-(* Run.v — single entry point of the executable model: [run : sx -> sx].
+(* Run_Lattice.v — executable entry points for the type lattice (C12, C13).
    A case is (opcode payload...).  The harness sends the same cases to the implementation. *)
+(* OPCODE 1 run_pairs *)
+(* OPCODE 2 run_lattice *)
 From Coq Require Import ZArith List Bool Arith.
 Import ListNotations.
 From OvldV Require Import Model.Sx Model.Order Model.Ty Model.TyDom Spec.Denot Model.Codec.
@@ -23,10 +25,3 @@ Definition run_lattice (s : sx) : sx :=
       L (map (fun a => L (map (fun b => of_bool (msym a b)) ts)) ts);
       L (map (fun a => L [of_bool (down_closed a);
                           L (map (fun c => of_bool (denot (hsub h) (hhasm h) (hchk h) a c)) (seq 0 nc))]) ts) ].
-
-Definition run (s : sx) : sx :=
-  match sx_tag s with
-  | 1%Z => run_pairs s
-  | 2%Z => run_lattice s
-  | _ => A (-999)%Z
-  end.
